@@ -149,7 +149,7 @@ class SpecGen:
         elif x < 0.6:
             node["default"] = {"t": "const", "v": self.const()}
         elif x < 0.7 and cfg["opt_default_tmpl"]:
-            node["default"] = {"t": "tmpl", "s": r.choice(U.TEMPLATES)}
+            node["default"] = {"t": "tmpl", "s": r.choice([t for t in U.TEMPLATES if t != "{L}"])}
         elif x < 0.8 and cfg["opt_default_factory"]:
             node["default"] = {"t": "factory", "v": self.const()}
         elif x < 0.95 and cfg["opt_default_expr"] and self.nodes:
@@ -791,6 +791,34 @@ def selector_positions(n):
     if k == "dataset" and isinstance(n.get("dispatch"), dict):
         return [n["dispatch"]["n"]]
     return []
+
+
+def hashable_required_keys(spec):
+    """Option keys whose value can reach a selector position (dispatch value, bind source, case subject)."""
+    by = {n["id"]: n for n in spec["nodes"]}
+    out, seen = set(), set()
+
+    def visit(nid):
+        if nid in seen or nid not in by:
+            return
+        seen.add(nid)
+        n = by[nid]
+        if n["k"] == "opt":
+            out.add(n["key"])
+            d = n.get("default") or {}
+            if d.get("t") == "tmpl":
+                out.update(r for r in U.template_refs(d["s"]) if not r.startswith(":"))
+        elif n["k"] == "template":
+            out.update(r for r in U.template_refs(n["text"]) if not r.startswith(":"))
+        for c in children(n):
+            visit(c)
+
+    for n in spec["nodes"]:
+        for p in selector_positions(n):
+            visit(p)
+        if n["k"] in ("switch", "dataset") and isinstance(n.get("dispatch"), str):
+            out.add(n["dispatch"])
+    return out
 
 
 def spec_ok(spec):
